@@ -144,7 +144,7 @@ Lemma step_in_header known c0 pre d rest :
   step H json_loads (set_buf pre c0) (EvData d) = set_buf (pre ++ d) c0.
 Proof.
   intros (I1 & I2 & I3 & I4 & I5 & I6 & I7 & I8 & I9 & I10 & I11) Hh Hne.
-  destruct c0 as [o l ce a f rc b hw w hs ln v ph nw T dl]; cbn in I1, I2, I3, I4, I5, I6, I7, I8, I9, I10;
+  destruct c0 as [o l ce a f rc b hw w hs ln v ph nw T dl uk]; cbn in I1, I2, I3, I4, I5, I6, I7, I8, I9, I10;
   subst o a f rc b hw w hs ln dl.
   unfold step, data_received, parse_path; cbn.
   pose proof (parse_header_prefix json_loads hdr Hnoprefix (pre ++ d) rest Hh Hne) as Hpp.
@@ -159,7 +159,7 @@ Lemma step_completes_header known c0 pre d t :
   P2 t (step H json_loads (set_buf pre c0) (EvData d)).
 Proof.
   intros (I1 & I2 & I3 & I4 & I5 & I6 & I7 & I8 & I9 & I10 & I11) Hh.
-  destruct c0 as [o l ce a f rc b hw w hs ln v ph nw T dl]; cbn in I1, I2, I3, I4, I5, I6, I7, I8, I9, I10;
+  destruct c0 as [o l ce a f rc b hw w hs ln v ph nw T dl uk]; cbn in I1, I2, I3, I4, I5, I6, I7, I8, I9, I10;
   subst o a f rc b hw w hs ln dl.
   unfold step, data_received, parse_path; cbn.
   pose proof (parse_header_then json_loads hdr r Hparse Hend Hnoprefix Hshort t) as Hpp.
@@ -187,7 +187,7 @@ Lemma step_completes_header_eq known c0 pre d t :
       (let '(c2, raised) := write_if_open H c1 t in if raised then force_close c2 else c2).
 Proof.
   intros (I1 & I2 & I3 & I4 & I5 & I6 & I7 & I8 & I9 & I10 & I11) Hh.
-  destruct c0 as [o l ce a f rc b hw w hs ln v ph nw T dl]; cbn in I1, I2, I3, I4, I5, I6, I7, I8, I9, I10;
+  destruct c0 as [o l ce a f rc b hw w hs ln v ph nw T dl uk]; cbn in I1, I2, I3, I4, I5, I6, I7, I8, I9, I10;
   subst o a f rc b hw w hs ln dl.
   unfold step, data_received, parse_path; cbn.
   pose proof (parse_header_then json_loads hdr r Hparse Hend Hnoprefix Hshort t) as Hpp.
